@@ -158,6 +158,9 @@ def const_item_of(facts, body, operand, depth=0):
     return None
 
 
+CALL_TAGGER = None       # optional hook: (callee name, block, terminator) -> name used in expressions (to keep call sites apart)
+
+
 # ---------------------------------------------------------------------------------------------------
 # Structural expressions of operands (value numbering over single-definition chains; no paths, no loops)
 def expr_of(facts, body, operand, depth=0, memo=None):
@@ -171,6 +174,8 @@ def expr_of(facts, body, operand, depth=0, memo=None):
         return ('deep',)
     if operand['o'] == 'const':
         if 'fn' in operand: return ('fn', operand.get('resolved') or operand['fn'])
+        if 'uneval' in operand and 'promoted' not in operand and operand.get('ty', {}).get('t', {}).get('k') == 'adt':
+            return ('item', operand['uneval'])      # a named constant of a struct type (bitflags): keep the name
         v = const_value(operand)
         if v is not None: return ('c', v)
         if 'uneval' in operand: return ('item', const_item_of(facts, body, operand) or operand['uneval'])
@@ -219,6 +224,8 @@ def expr_of_place(facts, body, p, depth=0, memo=None):
         if key not in memo:
             memo[key] = ('pending',)
             name = facts.callee_name(t)
+            if CALL_TAGGER is not None:
+                name = CALL_TAGGER(name, o[1], t)
             memo[key] = ('call', name) + tuple(expr_of(facts, body, a, depth + 1, memo) for a in t['args'])
         e = memo[key]
         pk = _proj_key(proj)
